@@ -531,6 +531,59 @@ def h_cancelled_pending_future(i):
             "expected": {"escaped": None, "unresolved_futures": [], "still_pending_in_table": 0}}
 
 
+def h_resize_worker_leaves(i):
+    """C10 termination clause: a worker dies (mode 'dies') right after the top-up of a resize, before the liveness poll; the real
+    get_reusable_executor(max_workers=2) must still return (or raise) within the bound instead of polling for ever."""
+    import threading
+    import signal
+    import time
+    from loky import reusable_executor as rx
+    bound = float(i.get("bound", 20))
+    ex = rx.get_reusable_executor(max_workers=1, timeout=100)
+    ex.submit(int, 0).result()
+    orig = ex._adjust_process_count
+
+    def adjust_then_lose_a_worker():
+        orig()
+        p = list(ex._processes.values())[-1]
+        os.kill(p.pid, signal.SIGKILL)
+        p.join()
+
+    ex._adjust_process_count = adjust_then_lose_a_worker
+    # the manager thread notices the death a little later than the resizing thread takes its snapshot (schedule made deterministic)
+    mt = ex._executor_manager_thread
+    orig_tb = mt.terminate_broken
+
+    def late_terminate_broken(bpe):
+        time.sleep(float(i.get("manager_delay", 1.0)))
+        orig_tb(bpe)
+
+    mt.terminate_broken = late_terminate_broken
+    out = {}
+
+    def call():
+        try:
+            rx.get_reusable_executor(max_workers=2, timeout=100)
+            out["outcome"] = "returned"
+        except BaseException as e:
+            out["outcome"] = f"raised {type(e).__name__}"
+
+    t0 = time.time()
+    t = threading.Thread(target=call, daemon=True)
+    t.start()
+    t.join(bound)
+    hung = t.is_alive()
+    res = {"reproduced": hung, "mode": i.get("mode", "dies"),
+           "observed": {"call": "still polling after %.0fs" % bound if hung else out.get("outcome"), "seconds": round(time.time() - t0, 2)},
+           "expected": {"call": "returns or raises within the bound"}, "_hard_exit": True}
+    for p in list((ex._processes or {}).values()):
+        try:
+            p.kill()
+        except Exception:
+            pass
+    return res
+
+
 def main():
     name, inputs, repo = sys.argv[1], json.loads(sys.argv[2]), sys.argv[3]
     sys.path.insert(0, repo)
@@ -543,7 +596,12 @@ def main():
     except BaseException as e:
         import traceback
         res = {"reproduced": False, "error": f"harness crashed: {e!r}", "tb": traceback.format_exc()[-1200:]}
+    hard = isinstance(res, dict) and res.pop("_hard_exit", False)
     print(json.dumps(res, default=str))
+    if hard:
+        # a polling thread may still hold locks the interpreter's exit handlers want
+        sys.stdout.flush()
+        os._exit(0)
 
 
 if __name__ == "__main__":
